@@ -1,6 +1,7 @@
 import CB.Driver.Util
-import CB.Model.Uint
+import CB.Model.AddSubForms
 namespace CB
+open CB.Cmp CB.AddSub
 
 private def u2 (n a b : String) (f : List Nat → List Nat → String) : Option String :=
   match n.toNat?, hexToNat? a, hexToNat? b with
@@ -37,6 +38,150 @@ def dispatchC04 : Dispatch := fun op args =>
       let r := checkedAdd x y; if r.2 = WMAX then limbsHex r.1 else "none"
   | "c04.u.checked_sub", [n, a, b] => u2 n a b fun x y =>
       let r := checkedSub x y; if r.2 = WMAX then limbsHex r.1 else "none"
+  -- Uint negation: carrying_neg (value, carry), wrapping_neg, wrapping_neg_if(c)
+  | "c04.u.neg", [n, a, c] =>
+    match n.toNat?, hexToNat? a, c.toNat? with
+    | some n, some a, some c =>
+      let x := toLimbs n a
+      let cn := carryingNeg x
+      let l1 := s!"{limbsHex cn.1} {choiceTok cn.2} {limbsHex (wrappingNeg x)} {limbsHex (wrappingNegIf x (maskOfBit c))}"
+      let av := a % B ^ n
+      let neg := (B ^ n - av) % B ^ n
+      let l0 := s!"{natToHex neg} {if av = 0 then 1 else 0} {natToHex neg} {natToHex (if c = 0 then av else neg)}"
+      some s!"{l1} ;; {l0}"
+    | _, _, _ => badArgs
+  -- panicking operators `a + b`, `a - b` (and the assigning forms)
+  | "c04.u.op_add", [n, a, b] =>
+    match n.toNat?, hexToNat? a, hexToNat? b with
+    | some n, some a, some b =>
+      let r := checkedAdd (toLimbs n a) (toLimbs n b)
+      let l1 := if r.2 = WMAX then limbsHex r.1 else "panic"
+      let l0 := if a + b < B ^ n then natToHex (a + b) else "panic"
+      some s!"{l1} ;; {l0}"
+    | _, _, _ => badArgs
+  | "c04.u.op_sub", [n, a, b] =>
+    match n.toNat?, hexToNat? a, hexToNat? b with
+    | some n, some a, some b =>
+      let r := checkedSub (toLimbs n a) (toLimbs n b)
+      let l1 := if r.2 = WMAX then limbsHex r.1 else "panic"
+      let l0 := if b ≤ a then natToHex (a - b) else "panic"
+      some s!"{l1} ;; {l0}"
+    | _, _, _ => badArgs
+  -- Wrapping<Uint>: (a + b) - c  and  -a
+  | "c04.u.wrapping_chain", [n, a, b, c] =>
+    match n.toNat?, hexToNat? a, hexToNat? b, hexToNat? c with
+    | some n, some a, some b, some c =>
+      let x := toLimbs n a; let y := toLimbs n b; let z := toLimbs n c
+      let l1 := s!"{limbsHex (wrappingSub (wrappingAdd x y) z)} {limbsHex (wrappingNeg x)}"
+      let m := B ^ n
+      let l0 := s!"{natToHex ((a + b + m - c) % m)} {natToHex ((m - a) % m)}"
+      some s!"{l1} ;; {l0}"
+    | _, _, _, _ => badArgs
+  -- Checked<Uint>: r1 = a + b, r2 = r1 - c, r3 = r2 + c  (none is sticky)
+  | "c04.u.checked_chain", [n, a, b, c] =>
+    match n.toNat?, hexToNat? a, hexToNat? b, hexToNat? c with
+    | some n, some a, some b, some c =>
+      let x := some (toLimbs n a); let y := some (toLimbs n b); let z := some (toLimbs n c)
+      let r1 := checkedAddO x y; let r2 := checkedSubO r1 z; let r3 := checkedAddO r2 z
+      let pr := fun (o : Option (List Nat)) => match o with | some v => limbsHex v | none => "none"
+      let m := B ^ n
+      let s1 : Option Nat := if a + b < m then some (a + b) else none
+      let s2 : Option Nat := match s1 with | some v => if c ≤ v then some (v - c) else none | none => none
+      let s3 : Option Nat := match s2 with | some v => if v + c < m then some (v + c) else none | none => none
+      let ps := fun (o : Option Nat) => match o with | some v => natToHex v | none => "none"
+      some s!"{pr r1} {pr r2} {pr r3} ;; {ps s1} {ps s2} {ps s3}"
+    | _, _, _, _ => badArgs
+  -- Limb forms: wrapping_add wrapping_sub saturating_add saturating_sub checked_add checked_sub wrapping_neg
+  | "c04.l.forms", [a, b] =>
+    match hexToNat? a, hexToNat? b with
+    | some a, some b =>
+      let ca := adc a b 0; let cs := sbb a b 0
+      let l1 := s!"{natToHex (wadd a b)} {natToHex (wsub a b)} {natToHex (limbSatAdd a b)} {natToHex (limbSatSub a b)} {if fromWordEq ca.2 0 = WMAX then natToHex ca.1 else "none"} {if fromWordEq cs.2 0 = WMAX then natToHex cs.1 else "none"} {natToHex (wneg a)}"
+      let l0 := s!"{natToHex ((a + b) % B)} {natToHex ((a + B - b) % B)} {natToHex (min (a + b) WMAX)} {natToHex (a - b)} {if a + b < B then natToHex (a + b) else "none"} {if b ≤ a then natToHex (a - b) else "none"} {natToHex ((B - a) % B)}"
+      some s!"{l1} ;; {l0}"
+    | _, _ => badArgs
+  | "c04.l.op_add", [a, b] =>
+    match hexToNat? a, hexToNat? b with
+    | some a, some b =>
+      let ca := adc a b 0
+      some s!"{if fromWordEq ca.2 0 = WMAX then natToHex ca.1 else "panic"} ;; {if a + b < B then natToHex (a + b) else "panic"}"
+    | _, _ => badArgs
+  | "c04.l.op_sub", [a, b] =>
+    match hexToNat? a, hexToNat? b with
+    | some a, some b =>
+      let cs := sbb a b 0
+      some s!"{if fromWordEq cs.2 0 = WMAX then natToHex cs.1 else "panic"} ;; {if b ≤ a then natToHex (a - b) else "panic"}"
+    | _, _ => badArgs
+  -- boxed, any two precisions
+  | "c04.b.adc", [na, a, nb, b, c] =>
+    match na.toNat?, hexToNat? a, nb.toNat?, hexToNat? b, hexToNat? c with
+    | some na, some a, some nb, some b, some c =>
+      let r := badc (toLimbs na a) (toLimbs nb b) c
+      let m := B ^ (max na nb)
+      some s!"{limbsHexLen r.1} {natToHex r.2} ;; {max na nb}:{natToHex ((a + b + c) % m)} {natToHex ((a + b + c) / m)}"
+    | _, _, _, _, _ => badArgs
+  | "c04.b.sbb", [na, a, nb, b, c] =>
+    match na.toNat?, hexToNat? a, nb.toNat?, hexToNat? b, hexToNat? c with
+    | some na, some a, some nb, some b, some c =>
+      let r := bsbb (toLimbs na a) (toLimbs nb b) c
+      let m := B ^ (max na nb)
+      let s := b + c / HALF
+      some s!"{limbsHexLen r.1} {natToHex r.2} ;; {max na nb}:{natToHex ((a + m - s % m) % m)} {natToHex (if a < s then WMAX else 0)}"
+    | _, _, _, _, _ => badArgs
+  -- wrapping_add wrapping_sub checked_add checked_sub wrapping_neg(a)
+  | "c04.b.forms", [na, a, nb, b] =>
+    match na.toNat?, hexToNat? a, nb.toNat?, hexToNat? b with
+    | some na, some a, some nb, some b =>
+      let x := toLimbs na a; let y := toLimbs nb b
+      let ra := badc x y 0; let rs := bsbb x y 0
+      let k := max na nb; let m := B ^ k
+      let l1 := s!"{limbsHexLen ra.1} {limbsHexLen rs.1} {if fromWordEq ra.2 0 = WMAX then limbsHexLen ra.1 else "none"} {if fromWordEq rs.2 0 = WMAX then limbsHexLen rs.1 else "none"} {limbsHexLen (wrappingNeg x)}"
+      let l0 := s!"{k}:{natToHex ((a + b) % m)} {k}:{natToHex ((a + m - b) % m)} {if a + b < m then s!"{k}:{natToHex (a + b)}" else "none"} {if b ≤ a then s!"{k}:{natToHex (a - b)}" else "none"} {na}:{natToHex ((B ^ na - a) % B ^ na)}"
+      some s!"{l1} ;; {l0}"
+    | _, _, _, _ => badArgs
+  | "c04.b.op_add", [na, a, nb, b] =>
+    match na.toNat?, hexToNat? a, nb.toNat?, hexToNat? b with
+    | some na, some a, some nb, some b =>
+      let k := max na nb
+      let l1 := match boxedOpAdd (toLimbs na a) (toLimbs nb b) with | some v => limbsHexLen v | none => "panic"
+      some s!"{l1} ;; {if a + b < B ^ k then s!"{k}:{natToHex (a + b)}" else "panic"}"
+    | _, _, _, _ => badArgs
+  | "c04.b.op_sub", [na, a, nb, b] =>
+    match na.toNat?, hexToNat? a, nb.toNat?, hexToNat? b with
+    | some na, some a, some nb, some b =>
+      let k := max na nb
+      let l1 := match boxedOpSub (toLimbs na a) (toLimbs nb b) with | some v => limbsHexLen v | none => "panic"
+      some s!"{l1} ;; {if b ≤ a then s!"{k}:{natToHex (a - b)}" else "panic"}"
+    | _, _, _, _ => badArgs
+  -- `a += &b`, also used for `a += Uint<N>` and `a + primitive`: the receiver keeps its precision.
+  -- spec: exact result if it fits the receiver; panic if it does not; a wider rhs may also panic (documented precondition).
+  | "c04.b.add_assign", [na, a, nb, b] =>
+    match na.toNat?, hexToNat? a, nb.toNat?, hexToNat? b with
+    | some na, some a, some nb, some b =>
+      let l1 := match boxedAddAssign (toLimbs na a) (toLimbs nb b) with | some v => limbsHexLen v | none => "panic"
+      let l1 := if nb > na then l1 ++ " ## panic" else l1   -- debug_assert on the precision in the dbgchk profile
+      let exact := if a + b < B ^ na then s!"{na}:{natToHex (a + b)}" else "panic"
+      some s!"{l1} ;; {if nb > na ∧ exact ≠ "panic" then exact ++ " || panic" else exact}"
+    | _, _, _, _ => badArgs
+  | "c04.b.sub_assign", [na, a, nb, b] =>
+    match na.toNat?, hexToNat? a, nb.toNat?, hexToNat? b with
+    | some na, some a, some nb, some b =>
+      let l1 := match boxedSubAssign (toLimbs na a) (toLimbs nb b) with | some v => limbsHexLen v | none => "panic"
+      let l1 := if nb > na then l1 ++ " ## panic" else l1
+      let exact := if b ≤ a then s!"{na}:{natToHex (a - b)}" else "panic"
+      some s!"{l1} ;; {if nb > na ∧ exact ≠ "panic" then exact ++ " || panic" else exact}"
+    | _, _, _, _ => badArgs
+  -- Wrapping<BoxedUint> `+=` / `-=`: no overflow check; result mod 2^BITS of the receiver
+  | "c04.b.wrapping_assign", [na, a, nb, b] =>
+    match na.toNat?, hexToNat? a, nb.toNat?, hexToNat? b with
+    | some na, some a, some nb, some b =>
+      let x := toLimbs na a; let y := toLimbs nb b
+      let m := B ^ na
+      let l1 := s!"{limbsHexLen (adcAssign x y 0).1} {limbsHexLen (sbbAssign x y 0).1}"
+      let l1 := if nb > na then l1 ++ " ## panic" else l1
+      let exact := s!"{na}:{natToHex ((a + b) % m)} {na}:{natToHex ((a + m - b % m) % m)}"
+      some s!"{l1} ;; {if nb > na then exact ++ " || panic" else exact}"
+    | _, _, _, _ => badArgs
   | _, _ => none
 
 end CB
